@@ -147,7 +147,7 @@ theorem quiet_messageGetFd (env : PEnv) (ms : MsgSt) (part : Option Msg) (dobody
   simp only [bind_eq, pure_eq, call_bind]
   repeat' (first | exact quiet_writefd _ | exact quiet_writeAll _ _ _ | exact quiet_messageWriteP _ _ | quiet_step)
 
-theorem quiet_execP (fdin : Option Handle) : Calls Quiet (execP fdin) := by
+theorem quiet_execP (argv : List Bytes) (fdin : Option Handle) : Calls Quiet (execP argv fdin) := by
   unfold execP
   simp only [bind_eq, pure_eq, call_bind]
   repeat' quiet_step
@@ -438,7 +438,7 @@ theorem spec_execOne (src : Bytes) (env : PEnv) (mh : Match) (st : ExecSt) (tr :
       | none => show Own src _ st.ms.name; own
       | some fd =>
         dsimp only
-        refine wp_bind_ext (wp_quiet' src (quiet_execP fd) _) ?_
+        refine wp_bind_ext (wp_quiet' src (quiet_execP _ fd) _) ?_
         intro rc L1 _
         cases fd with
         | none => show Own src _ st.ms.name; own
